@@ -229,6 +229,12 @@ func linStep(state any, input any, output any) (bool, any) {
 			return true, linState{Row: true, Exists: true, Body: in.Body, Cas: out.Cas, X: s.keepX()}
 		}
 		return true, s
+	case "Purge":
+		// (recorded on every key of the plan) a tombstone is gone afterwards, anything else untouched
+		if out.OK && s.Row && !s.Exists {
+			return true, linState{}
+		}
+		return true, s
 	case "Remove":
 		known, eq := casMatches(in.Cas)
 		if !s.Row || in.Cas == 0 {
@@ -324,6 +330,19 @@ func runLinPlan(p linPlan) (devs []Deviation, overlapRMW bool, err error) {
 		hist[key] = append(hist[key], porcupine.Operation{ClientId: client, Input: in, Call: call, Output: out, Return: ret})
 		mu.Unlock()
 	}
+	var planKeys []string
+	{
+		seenKeys := map[string]bool{}
+		for _, ops := range p.Workers {
+			for _, op := range ops {
+				if op.Key != "" && !seenKeys[op.Key] {
+					seenKeys[op.Key] = true
+					planKeys = append(planKeys, op.Key)
+				}
+			}
+		}
+		sort.Strings(planKeys)
+	}
 	var panics []string
 	var wg sync.WaitGroup
 	for wi, ops := range p.Workers {
@@ -399,6 +418,13 @@ func runLinPlan(p linPlan) (devs []Deviation, overlapRMW bool, err error) {
 					if e == nil {
 						seen[op.Key] = cas
 					}
+				case "Purge":
+					_, e := w.Handles[op.H%p.Handles].PurgeTombstones()
+					out = linOut{OK: e == nil, ErrCls: errClass(e)}
+					for _, k := range planKeys {
+						record(k, wi, in, call, out)
+					}
+					continue
 				case "Remove":
 					in.Cas = seen[op.Key]
 					cas, e := ds.Remove(op.Key, in.Cas)
@@ -533,7 +559,7 @@ func runLinPlan(p linPlan) (devs []Deviation, overlapRMW bool, err error) {
 					updX = append(updX, in.Tag)
 				}
 				onlyIncr, onlyUpd = false, false
-			case "Get", "GetX":
+			case "Get", "GetX", "Purge": // (a purge touches tombstones only)
 			case "Delete", "Remove":
 				xOnlyByUpdateX = false
 				onlyIncr, onlyUpd = false, false
@@ -588,7 +614,7 @@ func genLinPlan(rt *rapid.T) linPlan {
 			switch mode {
 			case "counter":
 				// (a deleted counter starts again at its default: creating it twice at once must not lose one)
-				op.K, op.Key = pick(rt, []string{"Incr", "Incr", "Incr", "Incr", "Get", "Delete"}, "k"), "ctr"
+				op.K, op.Key = pick(rt, []string{"Incr", "Incr", "Incr", "Incr", "Get", "Delete", "Delete", "Purge"}, "k"), "ctr"
 			case "list":
 				op.K, op.Key = pick(rt, []string{"Update", "Update", "Get"}, "k"), "list"
 			case "subdoc":
@@ -604,7 +630,7 @@ func genLinPlan(rt *rapid.T) linPlan {
 				op.K = pick(rt, []string{"GetX", "GetX", "Get", "Set", "Add", "Delete", "WriteCas", "Remove", "Update", "UpdateX", "UpdateX", "SubDoc"}, "k")
 			default:
 				op.Key = pick(rt, []string{"a", "b"}, "key")
-				op.K = pick(rt, []string{"Get", "Get", "Set", "SetPE", "Add", "Delete", "WriteCas", "WriteCas", "Remove", "Update", "SubDoc"}, "k")
+				op.K = pick(rt, []string{"Get", "Get", "Set", "SetPE", "Add", "Add", "Delete", "Delete", "WriteCas", "WriteCas", "Remove", "Update", "SubDoc", "Purge"}, "k")
 			}
 			switch op.K {
 			case "Set", "SetPE", "SetExp0", "Add", "WriteCas":
